@@ -504,8 +504,22 @@ def tolerance_unit_covers_narrow_floats(prog: Program, rep, RID: str):
     from rules.common import all_local_defs, substitute_locals
     defs = all_local_defs(f.node)
     txt = " ".join(norm(substitute_locals(st.value, defs)) for st in tol)
+    whole = norm(f.node)
     if re.search(r"\b(spacing|finfo)\b", txt) and "dtype" in txt:
         rep.ok(RID, key, "the unit also covers the spacing of numpy floats in their own type", f.loc(tol[0]))
+    elif re.search(r"\b(spacing|finfo)\(", whole) and "dtype" in whole:
+        # the spacings are collected by other means than a comprehension (a loop appending to a list): the name they are collected under has to feed the tolerance
+        feeders = {c.func.value.id for c in ast.walk(f.node) if isinstance(c, ast.Call) and isinstance(c.func, ast.Attribute) and c.func.attr in ("append", "extend", "add") and
+                   isinstance(c.func.value, ast.Name) and re.search(r"\b(spacing|finfo)\(", norm(c))}
+        raw_txt = " ".join(norm(st.value) for st in tol)
+        assigned = {t.id for st in ast.walk(f.node) if isinstance(st, ast.Assign) and re.search(r"\b(spacing|finfo)\(", norm(st.value)) for t in st.targets if isinstance(t, ast.Name)}
+        if any(re.search(r"\b" + re.escape(nm) + r"\b", txt + " " + raw_txt) for nm in feeders):
+            rep.ok(RID, key, f"the unit also covers the spacing of numpy floats in their own type (collected in `{sorted(feeders)[0]}`)", f.loc(tol[0]))
+        elif assigned and not feeders and not any(re.search(r"\b" + re.escape(nm) + r"\b", raw_txt) for nm in assigned):
+            rep.violation(RID, key, f"the spacing of the raw values is computed (`{sorted(assigned)[0]}`) but does not enter `{norm(tol[0])[:90]}`: the unit of the tolerance is "
+                          "math.ulp of the values as Python floats only - np.float32 values are 2**29 times coarser", f.loc(tol[0]))
+        else:
+            raise AnalysisError("flow-safe paths: a spacing of the raw values is computed, but how it reaches the tolerance was not recognised")
     else:
         rep.violation(RID, key, f"`{norm(tol[0])[:110]}` takes its unit from math.ulp of the values as Python floats only, while the readers accept numpy scalars: a np.float32 "
                       "value is off by up to 2**29 such units, so a window of excess 0 (flows 0.004, 0.004 -> 0.004, 0.001, 0.003 as np.float32) reads as +1.2e-10, is reported "
